@@ -257,19 +257,30 @@ def related_regexps(rng, syms):
 
 
 # ------------------------------------------------------------------ CFG
-def make_cfg(rules, start=None, V=None, Sigma=None, eps="ε"):
-    """rules: list of (lhs, rhs-string); upper case = variable, lower = terminal"""
+# multi-character variable names (legal: a Variable is any string): prefixes of each other, concatenations of
+# each other, digits / underscores / primes as the library's own fresh names have them
+VAR_NAME_POOLS = [
+    {"S": "S", "A": "A", "B": "AB", "C": "B", "D": "BB"},
+    {"S": "S0", "A": "S", "B": "S00", "C": "0S", "D": "S_0"},
+    {"S": "X1", "A": "X11", "B": "X", "C": "1X", "D": "X1X"},
+    {"S": "A'", "A": "A", "B": "A''", "C": "AA", "D": "AA'"},
+]
+
+
+def make_cfg(rules, start=None, V=None, Sigma=None, eps="ε", vnames=None):
+    """rules: list of (lhs, rhs-string); upper case = variable, lower = terminal; vnames renames the variables"""
     from gambatools.cfg import CFG, Rule, Alternative, Variable, Terminal
+    nm = (lambda c: vnames.get(c, c)) if vnames else (lambda c: c)
     R = []
     for lhs, rhs in rules:
-        R.append(Rule(Variable(lhs), Alternative([Variable(c) if c.isupper() else Terminal(c) for c in rhs])))
-    Vs = set(Variable(l) for l, _ in rules) | {Variable(c) for _, rhs in rules for c in rhs if c.isupper()}
+        R.append(Rule(Variable(nm(lhs)), Alternative([Variable(nm(c)) if c.isupper() else Terminal(c) for c in rhs])))
+    Vs = set(Variable(nm(l)) for l, _ in rules) | {Variable(nm(c)) for _, rhs in rules for c in rhs if c.isupper()}
     if V:
-        Vs |= {Variable(v) for v in V}
+        Vs |= {Variable(nm(v)) for v in V}
     Ts = {Terminal(c) for _, rhs in rules for c in rhs if not c.isupper()}
     if Sigma:
         Ts |= {Terminal(c) for c in Sigma}
-    S = Variable(start if start else rules[0][0])
+    S = Variable(nm(start if start else rules[0][0]))
     Vs.add(S)
     return CFG(Vs, Ts, R, S, Terminal(eps))
 
